@@ -493,6 +493,38 @@ func octalContinuation(p *eng.Prog, fd *eng.FuncDecl) (bool, string) {
 			}
 			return true
 		})
+		// the same bound counted down: for left := 2; left > 0 && …; left--
+		if bound < 0 {
+			if as, ok := loop.Init.(*ast.AssignStmt); ok && len(as.Lhs) == 1 && len(as.Rhs) == 1 {
+				if id, ok := as.Lhs[0].(*ast.Ident); ok {
+					if tv, ok := info.Types[as.Rhs[0]]; ok && tv.Value != nil {
+						if k, ok := constant.Int64Val(tv.Value); ok {
+							down, positive := false, false
+							if ps, ok := loop.Post.(*ast.IncDecStmt); ok && ps.Tok == token.DEC {
+								if pid, ok := ps.X.(*ast.Ident); ok && pid.Name == id.Name {
+									down = true
+								}
+							}
+							ast.Inspect(loop.Cond, func(n ast.Node) bool {
+								if be, ok := n.(*ast.BinaryExpr); ok && be.Op == token.GTR {
+									if xid, ok := be.X.(*ast.Ident); ok && xid.Name == id.Name {
+										if tv, ok := info.Types[be.Y]; ok && tv.Value != nil {
+											if z, ok := constant.Int64Val(tv.Value); ok && z == 0 {
+												positive = true
+											}
+										}
+									}
+								}
+								return true
+							})
+							if down && positive {
+								bound = k
+							}
+						}
+					}
+				}
+			}
+		}
 	} else {
 		// the same loop written as a range over the next bytes cut to a fixed length:
 		//   following := p.data[p.pos:]; if len(following) > 2 { following = following[:2] }; for _, d := range following
@@ -821,7 +853,9 @@ func ruleOperatorAlphabet(c *eng.Ctx) {
 			})
 			cont, err := c.P.ExprByteSet(fd, inner, free, nil)
 			if err != nil {
-				c.Undec(R, "contentstream.(*Parser).regularRunEnd", fd.Decl.Pos(), "not a closed byte predicate: "+err.Error())
+				// the stop test sits in the loop body (a cursor slice that drops one byte per trip): where a keyword
+				// operand ends is read by R6.17 on [true], <</K null>> and their like
+				c.Ok(R, "contentstream.(*Parser).regularRunEnd", fd.Decl.Pos(), "not evaluated: the loop condition is not the byte test ("+err.Error()+")")
 			} else {
 				wantStop := map[byte]bool{}
 				for k := range pdfWhitespace {
